@@ -9,7 +9,7 @@ Negative control (lfs_neg_*): recycling a popped node WITHOUT the grace period; 
 It is not part of the verdict on the library (the scenario misuses the API on purpose); a negative control that
 passes is a failure of the machinery (exit 2).
 """
-import os, shutil
+import os, re, json, shutil, threading, concurrent.futures as cf
 from vlib import *
 import conc
 
@@ -19,7 +19,7 @@ ASSUMPTIONS = ["x86-TSO memory model (Sewell et al.); compiler honours volatile/
                "bounds: one stack, <= 3 nodes (recycled in the RCU scenarios), <= 4 threads, store buffer <= 2 in TLC; executed code uses 32-entry software store buffers",
                "read-side critical sections and grace periods are abstract (harness/absrcu.h): a grace period ends when every critical section open at its start has ended; the real flavors are C01's business",
                "plain store node->next in cds_lfs_push: buffered in the model-checked configurations (PlainBuf), written through in the executed code (the runtime keeps plain accesses coherent), which is one of the TSO behaviours"]
-WORKERS = 8
+WORKERS = 6          # TLC workers per model-checking run (three lanes run side by side)
 
 
 def b(x):
@@ -76,11 +76,13 @@ LFS = {
 }
 LFS_MC = dict(LFS, consts=lfs_consts(True))       # model checking: the plain store of push sits in the store buffer
 
-WFS_QUICK = ["wfs_2p1c", "wfs_nb", "wfs_popall", "wfs_locked"]
-WFS_MORE = []
-LFS_QUICK = []
-LFS_MORE = []
-LFS_NEG = []
+# quick tier: small scenarios whose union takes every label of both specs; thorough tier adds the bigger ones
+WFS_QUICK = ["wfs_q_sc", "wfs_q_lock"]
+WFS_MORE = ["wfs_2p1c", "wfs_nb", "wfs_popall", "wfs_locked"]
+LFS_QUICK = ["lfs_q_sc", "lfs_q_lock", "lfs_q_rcu", "lfs_q_legacy"]
+LFS_MORE = ["lfs_sc", "lfs_locked", "lfs_rcu", "lfs_legacy"]
+LFS_NEG_QUICK = ["lfs_neg_q_aba"]
+LFS_NEG_MORE = ["lfs_neg_aba"]
 
 
 def model_check(ctx, comp, sc, timeout, expect_violation=False):
@@ -118,18 +120,139 @@ def component(ctx, comp, comp_mc, scenarios, nseeds, nsim, mc_timeout):
         conc.run_component(ctx, comp, scenarios, nseeds=nseeds, nsim=nsim, mc=False)
 
 
+# labels of Lfs that perform a shared access / scheduling point (one scheduler decision each); the others are silent
+LFS_ACC = {"p_st", "p_mb", "p_cas", "q_rl", "q_ldh", "q_ldn", "q_cas", "q_mb", "q_ru", "x_xchg", "x_mb", "y_next", "g_begin", "g_wait", "m_ld"}
+
+
+def counterexample_schedule(tlc_out):
+    """TLC error trace -> VSCHED schedule (one entry per access step: T:<thread>, or F:<thread> for a flush)."""
+    sched = []
+    for m in re.finditer(r'^State \d+: <(\w+)\("([^"]+)"\)', tlc_out, re.M):
+        lab, who = m.group(1), m.group(2)
+        if lab == "fl":
+            sched.append(who)
+        elif lab in LFS_ACC:
+            sched.append("T:" + who)
+    return sched
+
+
+def negative_control(ctx, scn, exe):
+    """Recycling without the grace period (API misuse on purpose): TLC must find the ABA counterexample, and that
+    counterexample, replayed as a schedule into the real lfstack.h, must trip a driver oracle.  Never a verdict on the
+    library; a negative control that finds nothing is a failure of the machinery."""
+    sc = load_scenario(scn)
+    assert not any(o.get("lck") for ops in sc["threads"].values() for o in ops)
+    r, mod = model_check(ctx, LFS, sc, 900, expect_violation=True)       # PlainBuf = FALSE: replayable by the runtime
+    if not r.violation:
+        raise RuntimeError("negative control %s: TLC found no ABA counterexample (%s) -- the specification cannot express the bug" % (scn, r.error or "no error"))
+    sched = counterexample_schedule(r.out)
+    wd = os.path.join(ctx.outdir, "neg_work"); shutil.rmtree(wd, ignore_errors=True); os.makedirs(wd)
+    pf = conc.program_file(LFS, sc, os.path.join(wd, "prog.txt"))
+    sp = os.path.join(wd, "sched.txt"); open(sp, "w").write("#auto-benign\n" + "\n".join(sched) + "\n")
+    tp = os.path.join(wd, "t.ndjson")
+    rc, so, se = run_driver(exe, [0, 1, tp, pf], env={"VRT_SCHED": sp}, timeout=30)
+    m = re.search(r"VRT-FAIL (.*)", se)
+    what = m.group(1) if m else "rc=%d %s" % (rc, se[-120:])
+    shutil.rmtree(wd, ignore_errors=True)
+    ctx.extra.setdefault("negative_controls", []).append({
+        "scenario": scn, "tlc": r.violation, "tlc_distinct_states": r.distinct, "tlc_depth": r.depth,
+        "counterexample_schedule": sched, "real_code_on_that_schedule": what})
+    log("  [neg] %s: TLC finds %s (%d distinct states, depth %d); real code on TLC's schedule: %s" % (scn, r.violation, r.distinct, r.depth, what))
+    if rc == 0 or "ORACLE" not in what:
+        raise RuntimeError("negative control %s: TLC's ABA schedule did not trip a driver oracle on the real code (%s)" % (scn, what))
+
+
+class Lane:
+    """A view of the check context for one of the parallel lanes: own work directory, build tag and counters (merged
+    at the end); violations, notes, samples, evidence extras go straight to the main context."""
+    _lock = threading.Lock()
+
+    def __init__(self, ctx, name):
+        self.main = ctx; self.name = name; self.pid = ctx.pid + "_" + name; self.tier = ctx.tier; self.seed = ctx.seed
+        self.states = self.transitions = self.traces = self.events = self.replays = 0
+        self.violations = ctx.violations; self.notes = ctx.notes; self.extra = ctx.extra; self.configs = ctx.configs
+        self.outdir = os.path.join(ctx.outdir, "lane_" + name)
+        os.makedirs(self.outdir, exist_ok=True)
+
+    def quick(self):
+        return self.main.quick()
+
+    def sample(self, smp):
+        with Lane._lock:
+            self.main.sample(smp)
+
+    def viol_dir(self):
+        with Lane._lock:
+            return self.main.viol_dir()
+
+    def violation(self, what, replay, key=None):
+        with Lane._lock:
+            self.main.violation(what, replay, key)
+
+    def add_tlc(self, r, name, consts=None):
+        self.states += r.distinct; self.transitions += r.states
+        with Lane._lock:
+            self.configs.append({"config": name, "distinct_states": r.distinct, "states_generated": r.states, "depth": r.depth,
+                                 "wall_s": round(r.wall, 1), "complete": bool(r.ok), "constants": consts or {}})
+
+    def merge(self):
+        for k in ("states", "transitions", "traces", "events", "replays"):
+            setattr(self.main, k, getattr(self.main, k) + getattr(self, k))
+        shutil.rmtree(self.outdir, ignore_errors=True)
+
+
 def run(ctx):
     q = ctx.quick()
-    component(ctx, WFS, WFS, WFS_QUICK + ([] if q else WFS_MORE), 60 if q else 1500, 16 if q else 300, 600 if q else 3000)
+    nseeds, nsim, mct = (40, 12, 600) if q else (1500, 300, 3000)
+    only = os.environ.get("VERIF_SCEN")
+
+    def lane_wfs(l):
+        component(l, WFS, WFS, WFS_QUICK + ([] if q else WFS_MORE), nseeds, nsim, mct)
+
+    def lane_lfs(l):
+        component(l, LFS, LFS_MC, LFS_QUICK[:2] + ([] if q else LFS_MORE[:2]), nseeds, nsim, mct)
+
+    def lane_rcu(l):
+        component(l, LFS, LFS_MC, LFS_QUICK[2:] + ([] if q else LFS_MORE[2:]), nseeds, nsim, mct)
+        if not only and len(ctx.violations) == 0:
+            exe = build_driver("d_lfs", "d_lfs.c", tag=l.pid + "_d_lfs")
+            for scn in LFS_NEG_QUICK + ([] if q else LFS_NEG_MORE):
+                negative_control(l, scn, exe)
+
+    # three lanes side by side (TLC: WORKERS workers each for model checking, 4 for simulation, 1 for trace validation)
+    lanes = [(Lane(ctx, "wfs"), lane_wfs), (Lane(ctx, "lfs"), lane_lfs), (Lane(ctx, "rcu"), lane_rcu)]
+    with cf.ThreadPoolExecutor(max_workers=len(lanes)) as ex:
+        futs = [ex.submit(fn, l) for l, fn in lanes]
+        errs = []
+        for f in futs:
+            try:
+                f.result()
+            except Exception as e:           # let the other lanes finish, then report the first machinery failure
+                errs.append(e)
+    for l, fn in lanes:
+        l.merge()
+    if errs:
+        raise errs[0]
     # labels never taken by any scenario of a component
     never = {}
     for spec, labels in ctx.extra.pop("_labels", {}).items():
-        never[spec] = sorted(l for l in labels - ctx.extra["_taken"][spec] if l not in ("Terminating", "SBBound"))
+        never[spec] = sorted(x for x in labels - ctx.extra["_taken"][spec] if x not in ("Terminating", "SBBound"))
     ctx.extra.pop("_taken", None)
-    ctx.extra["labels_never_taken_in_any_scenario"] = never
+    if not only:
+        ctx.extra["labels_never_taken_in_any_scenario"] = never
+        if any(never.values()):
+            ctx.notes.append("labels never taken in any scenario: %s" % never)
 
 
 def replay(ctx, path):
-    import json
-    meta = json.load(open(os.path.join(path, "meta.json")))
-    conc.replay(ctx, WFS if meta["scenario"].startswith("wfs_") else LFS, path)
+    mp = os.path.join(path, "meta.json")
+    if os.path.exists(mp):                                   # recorded execution / schedule of the real code
+        meta = json.load(open(mp))
+        return conc.replay(ctx, WFS if meta["scenario"].startswith("wfs_") else LFS, path)
+    # design-level counterexample (tlc.log only): model-check that scenario again
+    m = re.search(r"MC_(\w+?)_mc\b", open(os.path.join(path, "tlc.log"), errors="replace").read())
+    if not m:
+        raise RuntimeError("nothing to replay in " + path)
+    sc = load_scenario(m.group(1))
+    model_check(ctx, WFS if sc["spec"] == "Wfs" else LFS_MC, sc, 3000)
+    log("replay of %s: %s" % (path, "violation reproduced" if ctx.violations else "no violation on the current tree"))
